@@ -300,6 +300,7 @@ class FactBase:
             "configurations": self.configs,
             "call_sites": sum(len(self.calls(b)) for b in self.bodies.values()),
             "rustc": next(iter(self.crates.values()))["rustc"],
+            "new_functions_inlined": getattr(self, "inlined", [])[:40],
         }
 
 
